@@ -57,6 +57,7 @@ def baseKey (st : St) (s : Sys) : Kind → String
   | .stopper i => "stopper:" ++ nameStr st (s.nameOf i)
   | .depwaiter o i => "depwaiter:" ++ nameStr st (s.nameOf o) ++ "<" ++ nameStr st (s.nameOf i)
   | .probe id _ => "probe:" ++ toString id
+  | .pstart i => "pstart:" ++ nameStr st (s.nameOf i) ++ "_ready_probe"
 
 def threadKeys (st : St) (s : Sys) : List String :=
   let bases := s.threads.map fun th => baseKey st s th.kind
@@ -77,6 +78,7 @@ def obsStr (st : St) : Obs → String
   | .started n => s!"started {nameStr st n}"
   | .done n => s!"done {nameStr st n}"
   | .logready n => s!"logready {nameStr st n}"
+  | .deptry me k => s!"deptry {nameStr st me} {nameStr st k}"
   | .dep me k f => s!"dep {nameStr st me} {nameStr st k} {if f then "found" else "none"}"
   | .launch n => s!"launch {nameStr st n}"
   | .launchfail n => s!"launchfail {nameStr st n}"
@@ -118,7 +120,7 @@ def obsField (res : String) : List String :=
 
 def hintsOf (st : St) (implObs : List String) : Hints :=
   let depOrder := implObs.filterMap fun o => match words o with
-    | ["dep", _, k, _] => some (nameIdx st k)
+    | ["deptry", _, k] => some (nameIdx st k)
     | _ => none
   let sdOrder := (implObs.filterMap fun o => match words o with
     | ["sdorder", l] => some ((l.splitOn ",").map (nameIdx st))
